@@ -4378,7 +4378,11 @@ def _dSIR_compact_effective_degree_(X, t, N, tau, gamma):
     R, SI = X[-2:]
     I = N- R- Skappa.sum()
     kappas = np.arange(len(Skappa))
-    effectiveI = float(SI) /Skappa.dot(kappas)
+    SX = Skappa.dot(kappas) #number of (susceptible node, non-recovered neighbour) pairs
+    if SX == 0:
+        effectiveI = 0. #then SI is 0 as well; avoid 0/0
+    else:
+        effectiveI = float(SI) /SX
     dSkappa = effectiveI*(-(tau+gamma)*kappas*Skappa \
                 + gamma*shift(kappas*Skappa,-1))
     dSI = -(tau+gamma)*SI \
